@@ -42,12 +42,14 @@ func NewControlFile(path string, fp *os.File) *ControlFile {
 func (m *ControlFile) Close() error {
 	if m != nil {
 		if m.fp != nil {
+			verifPoint("cf.close", m.path)
 			if err := file.Close(m.fp); err != nil {
 				return err
 			}
 		}
 
 		if Exists(m.path) {
+			verifPoint("cf.remove", m.path)
 			if err := os.Remove(m.path); err != nil {
 				return err
 			}
@@ -60,12 +62,14 @@ func (m *ControlFile) CloseWithErrors() []error {
 	var errs []error
 	if m != nil {
 		if m.fp != nil {
+			verifPoint("cf.close", m.path)
 			if err := file.Close(m.fp); err != nil {
 				errs = append(errs, err)
 			}
 		}
 
 		if Exists(m.path) {
+			verifPoint("cf.remove", m.path)
 			if err := os.Remove(m.path); err != nil {
 				errs = append(errs, err)
 			}
@@ -83,6 +87,7 @@ func CreateControlFileContext(ctx context.Context, filePath string, fileType Con
 	}
 
 	for {
+		verifPoint("cf.try", filePath)
 		f, err := tryCreateControlFile(filePath, fileType)
 		if err == nil {
 			return f, nil
@@ -119,11 +124,13 @@ func tryCreateControlFile(filePath string, fileType ControlFileType) (*ControlFi
 }
 
 func TryCreateRLockFile(filePath string) (controlFile *ControlFile, err error) {
+	verifPoint("rlock.check", filePath)
 	if LockExists(filePath) {
 		return nil, NewLockError(fmt.Sprintf("failed to create %s file for %q", RLock, filePath))
 	}
 
 	lockFilePath := LockFilePath(filePath)
+	verifPoint("rlock.takelock", filePath)
 	lfp, err := file.Create(lockFilePath)
 	if err != nil {
 		return nil, NewLockError(fmt.Sprintf("failed to create %s file for %q", RLock, filePath))
@@ -134,6 +141,7 @@ func TryCreateRLockFile(filePath string) (controlFile *ControlFile, err error) {
 	}()
 
 	rlockFilePath := RLockFilePath(filePath)
+	verifPoint("rlock.create", filePath)
 	fp, e := file.Create(rlockFilePath)
 	if e != nil {
 		return nil, NewLockError(fmt.Sprintf("failed to create %s file for %q", RLock, filePath))
@@ -143,17 +151,20 @@ func TryCreateRLockFile(filePath string) (controlFile *ControlFile, err error) {
 }
 
 func TryCreateLockFile(filePath string) (*ControlFile, error) {
+	verifPoint("lock.check", filePath)
 	if LockExists(filePath) || RLockExists(filePath) {
 		return nil, NewLockError(fmt.Sprintf("failed to create %s file for %q", Lock, filePath))
 	}
 
 	lockFilePath := LockFilePath(filePath)
+	verifPoint("lock.create", filePath)
 	fp, err := file.Create(lockFilePath)
 	if err != nil {
 		return nil, NewLockError(fmt.Sprintf("failed to create %s file for %q", Lock, filePath))
 	}
 	lockFile := NewControlFile(lockFilePath, fp)
 
+	verifPoint("lock.recheck", filePath)
 	if RLockExists(filePath) {
 		err := NewLockError(fmt.Sprintf("failed to create %s file for %q", Lock, filePath))
 		err = NewCompositeError(err, lockFile.Close())
@@ -165,6 +176,7 @@ func TryCreateLockFile(filePath string) (*ControlFile, error) {
 
 func TryCreateTempFile(filePath string) (*ControlFile, error) {
 	tempFilePath := TempFilePath(filePath)
+	verifPoint("temp.create", filePath)
 	fp, err := file.Create(tempFilePath)
 	if err != nil {
 		return nil, NewLockError(fmt.Sprintf("failed to create %s file for %q", Temporary, filePath))
